@@ -456,8 +456,8 @@ func TestC02(t *testing.T) {
 func TestC07Conc(t *testing.T) {
 	runSchedTest(t, schedSpec{
 		prop: "C07", test: "TestC07Conc",
-		rule:  "a generated store and 2-3 concurrent `sequence` / `sequence rm` commands (opposite edges, overlapping chains), parked / resumed by the controller or free-running; oracle: linearizability against the reference edge model plus acyclicity / same-kind / live-endpoint / mirror invariants of the final graph; non-trivial = executions overlap and at least one park landed (or free-running)",
-		kinds: map[string]int{"sequence": 85, "sequence_rm": 15}, minN: 2, maxN: 3,
+		rule:   "a generated store and 2-3 concurrent `sequence` / `sequence rm` commands (opposite edges, overlapping chains), parked / resumed by the controller or free-running; oracle: linearizability against the reference edge model plus acyclicity / same-kind / live-endpoint / mirror invariants of the final graph; non-trivial = executions overlap and at least one park landed (or free-running)",
+		genOps: genSequenceRace, minN: 2, maxN: 3,
 		setup: Profile{Name: "graph-setup", Weights: map[string]int{"new_task": 50, "new_epic": 14, "sequence": 16, "set": 8, "plan": 4}, EpicPct: 30, StatePct: 10, ClaimPct: -1},
 		extra: func(pre, final *Snapshot, cmds []ConcCmd) []string {
 			var out []string
